@@ -5,11 +5,20 @@ from .props_h1 import *
 
 
 def h1prop(module, proj, streams, oracles=None, twins=None, twin_rel=None, phase2=None, **kw):
+    if "visible" not in kw:
+        kw["visible"] = VISIBLE.get(module.split(".")[-1])
     d = dict(module=module, proj=proj, streams=streams, oracles=oracles or [], twins=twins, twin_rel=twin_rel,
              phase2=phase2, run=runtime_check.run, differs=runtime_check.differs, level="proof")
     d.update(kw)
     return d
 
+
+VISIBLE = {
+    "C01": P(["val", "noerr", "off"]), "C02": P(["trace_ctx"]), "C05": P(["trace_stores", "stores"]),
+    "C06": P(["val", "errs"]), "C08": P(["val", "errs", "stores"]), "C10": P(["val", "errs"]), "C11": P(["val", "errs"]),
+    "C12": P(["errs"]), "C14": P(["val", "noerr", "errs"]), "C15": P(["val", "errs"]), "C16": P(["val", "errs", "cnt"]),
+    "C17": P(["val", "errs"]),
+}
 
 PROPS = {
     "C01": h1prop("PigeonVerif.Properties.C01", P(["val", "pos", "noerr"]),
